@@ -389,6 +389,9 @@ func (ex *Exec) frameCheck(st *State, fr *Frame, fc *FuncContract, env *Env) {
 		if cur == old || cur == nil {
 			continue
 		}
+		if fc != nil && fc.AllowGlobals && strings.HasPrefix(old.Tag, "global:") {
+			continue
+		}
 		var diffs []diff
 		switch old.Kind {
 		case okCell:
